@@ -79,7 +79,8 @@ func (c11) Gen(r *rand.Rand, tier string, run int) *core.Case {
 		c.Params["scenario"] = 2
 		c.Params["crowd"] = 12 + j%5
 		c.Params["stall"] = 0
-		c.Params["flood_loss"] = 1 + j/5%3
+		c.Params["flood_loss"] = 1 + j/5%4
+		c.Net.CloseErr = 100
 		c.Params["flood_delay"] = j / 15 % 45
 		c.Params["tape_seed"] = int(br.Uint64()>>34) + j
 		c.Params["fault_op"] = -6
@@ -363,6 +364,12 @@ func c11crowd(c *core.Case, env *core.Env, st *c11state, w *World, cl bus.Client
 		env.Violate("setup/lend", "%v", err)
 		return
 	}
+	// (the server goes through its connections in the order of the peers'
+	// addresses, or the opposite one: the other client comes after or
+	// before this one)
+	if c.P("crowd", 0)%2 == 0 {
+		env.S.Ext["channels_last_first"] = true
+	}
 	other, err := Connect("other", "u", "p")
 	if err != nil {
 		env.Violate("setup/connect", "%v", err)
@@ -405,7 +412,7 @@ func c11crowd(c *core.Case, env *core.Env, st *c11state, w *World, cl bus.Client
 	seq := zzsim.Seq()
 	st.mu.Lock()
 	st.appClose = seq
-	st.lossKind = []string{"", "app-close-with-a-crowded-hosted-object", "peer-reset-with-a-crowded-hosted-object", "peer-close-with-a-crowded-hosted-object"}[mode]
+	st.lossKind = []string{"", "app-close-with-a-crowded-hosted-object", "peer-reset-with-a-crowded-hosted-object", "peer-close-with-a-crowded-hosted-object", "server-terminated-with-a-crowded-hosted-object"}[mode]
 	st.mu.Unlock()
 	zzsim.Event("the connection is lost (mode %d) while the object the client hosts is crowded", mode)
 	env.Probe("hosted-object-crowded")
@@ -414,6 +421,13 @@ func c11crowd(c *core.Case, env *core.Env, st *c11state, w *World, cl bus.Client
 		cl.Channel().EndPoint().Close()
 	case 2:
 		conn.Peer().Abort()
+	case 4:
+		// the server itself is terminated, just after another of its
+		// clients has vanished without it having noticed yet
+		other.Channel().EndPoint().Close()
+		zzsim.SetNode("server")
+		w.Srv.Terminate()
+		zzsim.SetNode("harness")
 	default:
 		conn.Peer().Close()
 	}
